@@ -257,6 +257,50 @@ def firstMismatch (xs ys : List String) (i : Nat := 0) : Option Nat :=
   | x :: xs, y :: ys => if x == y then firstMismatch xs ys (i + 1) else some i
   | _, _ => some i
 
+
+/-! ### depth boundaries: the shapes of `harness/src/bin/c14.rs: deep_string / deep_tree` -/
+
+def rep (d : Nat) (s : String) : List Char := (List.replicate d s.toList).flatten
+
+def deepString (shape : String) (d : Nat) : Option (List Char) :=
+  match shape with
+  | "paren" => some (rep d "(" ++ "a".toList ++ rep d ")")
+  | "parenop" => some (rep d "(" ++ "a & b".toList ++ rep d ")")
+  | "rightand" => some (rep d "(a & " ++ "a".toList ++ rep d ")")
+  | "leftand" => some (rep d "(" ++ "a".toList ++ rep d " & a)")
+  | "flatand" => some ("a".toList ++ rep d " & a")
+  | "flatimp" => some ("a".toList ++ rep d "=>b")
+  | "notchain" => some (rep d "!" ++ "a".toList)
+  | "notparen" => some (rep d "!(" ++ "a".toList ++ rep d ")")
+  | "condright" => some (rep d "(a ? b : " ++ "c".toList ++ rep d ")")
+  | "condleft" => some (rep d "(" ++ "a".toList ++ rep d " ? b : c)")
+  | "condmid" => some (rep d "(a ? " ++ "b".toList ++ rep d " : c)")
+  | "mixed" =>
+    let ops : Array String := #["=>", "<=>", "|", "^", "&"]
+    some (((List.range d).map fun i => ("(a " ++ ops[i % 5]! ++ " ").toList).flatten ++ "a".toList ++ rep d ")")
+  | "unbalopen" => some (rep d "(" ++ "a".toList ++ rep (d - 1) ")")
+  | "unbalclose" => some (rep (d - 1) "(" ++ "a".toList ++ rep d ")")
+  | _ => none
+
+def deepTree (shape : String) (d : Nat) : Option Expr :=
+  let va := Expr.var ['a']
+  let step (i : Nat) (acc : Expr) : Option Expr :=
+    match shape with
+    | "t-right" => some (.and va acc)
+    | "t-left" => some (.or acc va)
+    | "t-not" => some (.not acc)
+    | "t-condelse" => some (.cond va (.var ['b']) acc)
+    | "t-condcond" => some (.cond acc va (.const false))
+    | "t-mixed" => some (match i % 6 with
+        | 0 => .imp va acc | 1 => .iff acc va | 2 => .xor va acc | 3 => .not acc
+        | 4 => .cond va acc (.const true) | _ => .or acc va)
+    | _ => none
+  (List.range d).foldl (fun acc i => acc.bind (step i)) (some va)
+
+/-- nesting depth up to which the real parser must not exhaust an 8 MB native stack (observed limit of the
+    release build: between 9 000 and 11 000 levels) -/
+def safeDepth : Nat := 5000
+
 def handle (key : String) (ins obs : List String) : Verdict :=
   match key, ins, obs with
   | "C14.tok", [x], o | "C14.chr", [x], o | "C14.rnd", [x], o =>
@@ -275,6 +319,34 @@ def handle (key : String) (ins obs : List String) : Verdict :=
         nontrivial := cs.length > 0,
         tags := [(o.headD "?"), s!"len{Nat.log2 (cs.length + 1)}"] ++
           (if cs.contains '(' then ["paren"] else []) ++ (if cs.contains '?' then ["cond"] else []) }
+  | "C14.deep", [shape, d], (text :: o) =>
+    match d.toNat? with
+    | none => Verdict.bad "args"
+    | some d =>
+      let tree := deepTree shape d
+      let input : Option (List Char) := match tree with | some e => some (display e) | none => deepString shape d
+      match input with
+      | none => Verdict.bad "shape"
+      | some cs =>
+        let observed := " ".intercalate o
+        if observed == "crash" then
+          { agree := true, model := "-",
+            fail := if d ≤ safeDepth then some s!"native-stack-exhausted-at-depth-{d}" else none,
+            nontrivial := true, tags := ["deep", shape, "crash"] }
+        else if enc cs != text then
+          -- for tree shapes this is the printed form: `Display` disagrees with the model's `display`
+          { agree := false, model := "printed/constructed text differs", nontrivial := true, tags := ["deep", shape],
+            fail := if tree.isSome then some "printed-form-differs" else none }
+        else
+          let model := showOutcome (parse cs)
+          let want := match tree with
+            | some e => "ok " ++ sexp e                 -- round trip
+            | none => showRef (reference cs)            -- grammar
+          let fail := if observed == "panic" then some "never-panics"
+            else if observed == want then none
+            else some s!"depth-{d}:expected={want.take 60}:observed={observed.take 60}"
+          { agree := model == observed, model := (model.take 200).toString, fail, nontrivial := true,
+            tags := ["deep", shape, s!"depth{d}", o.headD "?"] }
   | "C14.tokb", [p, k], [res] =>
     match k.toNat? with
     | none => Verdict.bad "args"
@@ -297,16 +369,18 @@ def handle (key : String) (ins obs : List String) : Verdict :=
           | some i => s!"input={enc (strs.getD i [])}:model={modelItems.getD i "?"}"
           | none => "-"),
         fail, nontrivial := true, tags := ["batch", s!"batchOk{Nat.log2 (oks + 1)}"] }
-  | "C14.wsb", [st, cnt], [res] =>
+  | "C14.wsb", [st, cnt], [res] | "C14.wsm", [st, cnt], [res] =>
     match st.toNat?, cnt.toNat? with
     | some st, some cnt =>
+      let middle := key == "C14.wsm"
       let cls (f : List Char → Option (Option Expr)) (cp : Nat) : Char :=
         if (0xD800 ≤ cp ∧ cp ≤ 0xDFFF) ∨ cp > 0x10FFFF then '-' else
         let c := Char.ofNat cp
-        match f ['a', c] with
+        let text := if middle then ['a', c, 'b'] else ['a', c]
+        match f text with
         | none => 'p'
         | some none => 'e'
-        | some (some (.var n)) => if n = ['a'] then 'w' else if n = ['a', c] then 'i' else 'o'
+        | some (some (.var n)) => if n = ['a'] then 'w' else if n = text then 'i' else 'o'
         | some (some _) => 'o'
       let viaModel := fun cs => match parse cs with | .ok e => some (some e) | .err _ => some none | .panic _ => none
       let viaRef := fun cs => some (reference cs)
@@ -319,7 +393,7 @@ def handle (key : String) (ins obs : List String) : Verdict :=
           some s!"whitespace-or-identifier-class:codepoint={st + i}"
       { agree := model == res, model := (if model == res then "-" else
           s!"codepoint={st + (firstMismatch (res.toList.map toString) (model.toList.map toString)).getD 0}"),
-        fail, nontrivial := res.contains 'w' || res.contains 'e', tags := ["wsb"] }
+        fail, nontrivial := res.contains 'w' || res.contains 'e', tags := [if middle then "wsm" else "wsb"] }
     | _, _ => Verdict.bad "args"
   | "C14.rt", [t], [printed, k, _tree] | "C14.rt", [t], [printed, k] | "C14.rtu", [t], [printed, k, _tree] | "C14.rtu", [t], [printed, k] =>
     match unsexp t with
